@@ -647,6 +647,9 @@ func phiIsConjunction(ph *ssa.Phi, cmps map[ssa.Value]string, helpers map[ssa.Va
 				okEdge = true
 			}
 		}
+		if !okEdge && len(pred.Instrs) == 1 { // forwarding block (early `return false` of an expanded helper)
+			okEdge = edgesJustified(pred, cmps, helpers, 0)
+		}
 		if !okEdge {
 			return false
 		}
@@ -952,7 +955,6 @@ func equalityHelpers(P *Program, f *ssa.Function, frozen []string) []string {
 	}
 	return out
 }
-
 
 // constBoolMapKeys: g is a package-level map[K]bool that the package initialiser fills with constant keys and that
 // nothing else in its package writes; it returns the keys mapped to true.
